@@ -52,10 +52,15 @@ class ChkModel:
 
 def gen_chk(src):
     c = ChkModel()
-    m = world.gen_mesh(src, tag="k", force_3d=True, max_levels=3, max_blocks0=2, bfs=(2, 4), max_boxes=10)
+    big = src.flag("k.bigbox", 100)
+    if big:
+        # scale class: one 32^3 box, 3 ghost cells, 10-11 state components: a state FAB of more than 4 MiB
+        m = world.gen_scale_world(src, "box32", tag="k")
+    else:
+        m = world.gen_mesh(src, tag="k", force_3d=True, max_levels=3, max_blocks0=2, bfs=(2, 4), max_boxes=10)
     c.mesh = m
-    c.nsp = src.draw("k.nsp", 1, 4)
-    c.ng = src.draw("k.ng", 1, 3)
+    c.nsp = src.draw("k.nsp", 3 if big else 1, 4)
+    c.ng = src.draw("k.ng", 3 if big else 1, 3)
     c.time = src.choice("k.time", [0.49947225144556617, 1.6457727058794072e-11, 0.0, 2.0, 1234.5678])
     c.step = src.choice("k.step", [5, 0, 120])
     seed = src.draw("k.dataseed", 0, 999999)
